@@ -180,9 +180,16 @@ func (noLifecycle) ReconfigureProcessor(context.Context, string, string) error {
 // lifecycle service); wrapPl, if not nil, wraps the pipeline service handed to
 // the provisioning service.
 func NewEnv(life provisioning.LifecycleService, wrapPl func(*pipeline.Service) provisioning.PipelineService) *Env {
-	logger := log.Nop()
 	db := NewFaultDB()
-	e := &Env{DB: db}
+	e := NewEnvOn(db, life, wrapPl)
+	e.DB = db
+	return e
+}
+
+// NewEnvOn is NewEnv on a database of the caller's choice (Env.DB stays nil).
+func NewEnvOn(db database.DB, life provisioning.LifecycleService, wrapPl func(*pipeline.Service) provisioning.PipelineService) *Env {
+	logger := log.Nop()
+	e := &Env{}
 	e.Pl = pipeline.NewService(logger, db)
 	e.Conn = connector.NewService(logger, db, connector.NewPersister(logger, db, time.Second, 3))
 	e.Proc = processor.NewService(logger, db, ProcRegistry{})
@@ -345,10 +352,13 @@ func rawProcs(ps []Proc) []config.Processor {
 
 // Render builds the raw config of the token config and passes it through the
 // real config.Enrich, as every caller of the import path does.
-func Render(p Pipe) config.Pipeline {
+func Render(p Pipe) config.Pipeline { return RenderID(PipelineID, p) }
+
+// RenderID is Render for a pipeline id of the caller's choice.
+func RenderID(id string, p Pipe) config.Pipeline {
 	size, thr := p.DLQ.Size, p.DLQ.Thr
 	raw := config.Pipeline{
-		ID:          PipelineID,
+		ID:          id,
 		Status:      config.StatusStopped,
 		Name:        strOf("name-", p.Name),
 		Description: strOf("desc-", p.Desc),
